@@ -68,6 +68,11 @@ def _all_combos():
     for mask in (1, 4, 8, 15, 31):
         for outcome in OUTCOMES:
             out.append(dict(mask=mask, report_to='dtn://rep/r', outcome=outcome, crc=(mask % 3), report_mtu=True))
+    # endpoint ids whose demux holds '?' and '#' (the report must name exactly that subject and go to exactly that endpoint)
+    for mask in (1, 2, 4, 8, 15, 31):
+        for outcome in OUTCOMES:
+            for crc in (0, 1):
+                out.append(dict(mask=mask, report_to='dtn://rep/mon?chan=2', outcome=outcome, crc=crc, odd_src='dtn://src/app?inst=7#a'))
     return out
 
 
@@ -102,10 +107,15 @@ def build(combo, rng, variant):
         blocks.append(dict(type=12, num=3, flags=0, crc_type=crc, data=_bad_bib() if (combo['mask'] + crc) % 2 else b'\x9f\xff\x00', crc=None))
     if variant and rng.random() < 0.5:
         blocks.append(dict(type=10, num=7, flags=0, crc_type=crc, data=cw.enc([30, 1]), crc=None))
+    elif not variant and (combo['mask'] + crc) % 4 == 1:
+        # a hop count already at its limit (this implementation does not enforce the limit: the bundle goes where its route says,
+        # and the report must say what happened to it)
+        blocks.append(dict(type=10, num=7, flags=0, crc_type=crc, data=cw.enc([[4, 4], [0, 0], [4, 9]][combo['mask'] % 3]), crc=None))
     if combo['outcome'] == 'forward-frag':
         plen = max(plen, 300)
     blocks.append(dict(type=1, num=1, flags=0, crc_type=crc, data=bytes((i * 13 + 5) & 0xFF for i in range(plen)), crc=None))
     src = 'dtn://src/app' if variant == 0 else rng.choice(['dtn://src/app', 'ipn:77.3', 'dtn://src/'])
+    src = combo.get('odd_src', src)
     clockless = (combo['mask'] + combo['crc'] + variant) % 5 == 0
     if clockless:
         # the subject comes from a source without a clock: creation time 0, its age in a Bundle Age block
